@@ -207,7 +207,14 @@ func runC15(c *mon.Ctx) {
 	for k := 0; k < n; k++ {
 		for _, ver := range versions {
 			sr := r.Fork("room")
+			// (in half of the processes the rooms of versions with privileged creators have a second creator on another
+			// server than the resident one - the case in which "may always invite" and "is one of ours" come apart)
+			simExtraCreatorOverride = ""
+			if c.Shard%2 == 0 {
+				simExtraCreatorOverride = simUsers[2]
+			}
 			sc := genScenario(sr, ver, 4)
+			simExtraCreatorOverride = ""
 			b := gen.Pick(sr, sc.branches)
 			c15MakeJoinLeave(c, sr, sc, b)
 			c15SendJoin(c, sr, sc, b)
